@@ -326,7 +326,8 @@ func TestC07(t *testing.T) {
 					case "ctx-expiry":
 						ctx, cancel = context.WithTimeout(ctx, time.Second)
 					}
-					step("peerCloseMid(c%d,%s)", c.id, kind)
+					cutBuf := rapid.SampledFrom([]int{64, 1000, 50000}).Draw(rt, "cutBuf")
+					step("peerCloseMid(c%d,%s,buf=%d)", c.id, kind, cutBuf)
 					var got []byte
 					var rerr error
 					s.call(rt, "read of a message that is cut short", func() {
@@ -336,7 +337,7 @@ func TestC07(t *testing.T) {
 							rerr = err
 							return
 						}
-						buf := make([]byte, 64)
+						buf := make([]byte, cutBuf)
 						for {
 							n, err := r.Read(buf)
 							got = append(got, buf[:n]...)
@@ -362,7 +363,8 @@ func TestC07(t *testing.T) {
 							m = c07Modes[1]
 						}
 						f := s.openConn(rt, m)
-						dist := rapid.SampledFrom([]int{258, 300, 1000, 5000}).Draw(rt, "probeDist")
+						// distance 1 repeats the last byte of the window 258 times: one stale byte is enough to show
+						dist := rapid.SampledFrom([]int{1, 2, 32, 258, 1000, 5000}).Draw(rt, "probeDist")
 						step("freshProbe(c%d,%s,dist=%d)", f.id, m.Name, dist)
 						f.lc.Peer.send(ref.Frame{Fin: true, Opcode: ref.OpBinary, Rsv1: true, Payload: ref.CraftBackref(dist)})
 						var leaked []byte
@@ -428,12 +430,12 @@ func TestC07(t *testing.T) {
 					// connection's own compressed history: whatever the window still
 					// holds from another (closed) connection would come out
 					c := s.pick(rt, func(c *c07Conn) bool {
-						return c.alive && c.cur == nil && len(c.pending) == 0 && c.lc.Agreed.Deflate && c.lc.Agreed.SenderTakeover(!c.mode.Client) && c.compHist+258 <= 32768
+						return c.alive && c.cur == nil && len(c.pending) == 0 && c.lc.Agreed.Deflate && c.lc.Agreed.SenderTakeover(!c.mode.Client) && c.compHist+1258 <= 32768
 					})
 					if c == nil {
 						return
 					}
-					dist := c.compHist + 258 + rapid.SampledFrom([]int{0, 1, 1000}).Draw(rt, "beyond")
+					dist := c.compHist + rapid.SampledFrom([]int{1, 2, 258, 259, 1258}).Draw(rt, "beyond")
 					if dist > 32768 {
 						dist = 32768
 					}
